@@ -79,6 +79,8 @@ type MCall struct {
 	InvSym   int
 	Canceled string // "" or the kill mode pending
 	RecvProg bool
+	InProg   bool   // progressive call invocation: the caller has not sent its last chunk yet
+	Proc     string // as called
 	Done     bool
 	Deadline int64 // virtual ms at which the router ends the call (0: no router-side timeout)
 	Timeout  int64
@@ -729,6 +731,9 @@ func (m *MRealm) invDetails(reg *MReg, caller, callee *MSess, opts wamp.Dict, pr
 	if to, ok := wamp.AsInt64(opts["timeout"]); ok && to > 0 && reg.FwdTO && callee.Feat["callee.call_timeout"] {
 		kv = append(kv, "timeout", fmt.Sprint(to))
 	}
+	if p, _ := opts["progress"].(bool); p {
+		kv = append(kv, "progress", "true") // first chunk of a progressive call invocation
+	}
 	return detText(kv...)
 }
 
@@ -736,6 +741,18 @@ func (m *MRealm) invDetails(reg *MReg, caller, callee *MSess, opts wamp.Dict, pr
 // INVOCATION expectation is an Alt over candidate callees handled by the
 // checker through CallResolve.
 func (m *MRealm) Call(s int, req wamp.ID, opts wamp.Dict, proc string, args wamp.List, kw wamp.Dict) ([]Exp, *MCall) {
+	prog, _ := opts["progress"].(bool)
+	// A further chunk of a progressive call invocation: same callee, same
+	// invocation id, whatever is registered by now; nothing but the progress
+	// flag in the details (identity, procedure, timeout went with the first).
+	if c := m.callByReq(s, req); c != nil && c.InProg && c.Callee >= 0 {
+		c.InProg = prog
+		det := "{}"
+		if prog {
+			det = detText("progress", "true")
+		}
+		return []Exp{{To: c.Callee, Text: fmt.Sprintf("INVOCATION(%s,%s,%s,%s)", symI(c.InvSym), symR(c.Reg.Sym), det, payload(args, kw))}}, nil
+	}
 	regs := m.MatchProc(proc)
 	if len(regs) == 0 {
 		return []Exp{{To: s, Text: errText(wamp.CALL, req, "wamp.error.no_such_procedure")}}, nil
@@ -743,7 +760,7 @@ func (m *MRealm) Call(s int, req wamp.ID, opts wamp.Dict, proc string, args wamp
 	discloseMe, _ := opts["disclose_me"].(bool)
 	caller := m.Sess[s]
 	m.nInv++
-	call := &MCall{Caller: s, Req: req, Callee: -1, InvSym: m.nInv}
+	call := &MCall{Caller: s, Req: req, Callee: -1, InvSym: m.nInv, Proc: proc}
 	call.RecvProg, _ = opts["receive_progress"].(bool)
 	if to, ok := wamp.AsInt64(opts["timeout"]); ok && to > 0 {
 		call.Timeout = to
@@ -763,22 +780,42 @@ func (m *MRealm) Call(s int, req wamp.ID, opts wamp.Dict, proc string, args wamp
 	var tos []int
 	refused := true
 	someRefused := false
+	refusals := map[string]bool{}
 	for _, c := range cs {
+		callee := m.Sess[c.callee]
+		if prog && !(callee.Feat["callee.progressive_call_invocations"] && callee.Feat["callee.call_canceling"]) {
+			// a callee that cannot take (or cannot be interrupted in) a progressive call invocation
+			someRefused = true
+			refusals["wamp.error.feature_not_supported"] = true
+			continue
+		}
 		if discloseMe && !c.reg.Disclose && !m.AllowDisclose {
 			someRefused = true
+			refusals["wamp.error.option_disallowed.disclose_me"] = true
 			continue
 		}
 		refused = false
-		callee := m.Sess[c.callee]
-		alts = append(alts, fmt.Sprintf("INVOCATION(%s,%s,%s,%s)", symI(call.InvSym), symR(c.reg.Sym), m.invDetails(c.reg, caller, callee, opts, proc), payload(args, kw)))
+		det := m.invDetails(c.reg, caller, callee, opts, proc)
+		alts = append(alts, fmt.Sprintf("INVOCATION(%s,%s,%s,%s)", symI(call.InvSym), symR(c.reg.Sym), det, payload(args, kw)))
 		tos = append(tos, c.callee)
 	}
 	if refused {
 		for _, c := range cs {
 			m.noteRefused(c.reg)
 		}
-		return []Exp{{To: s, Text: errText(wamp.CALL, req, "wamp.error.option_disallowed.disclose_me")}}, nil
+		if len(refusals) == 1 {
+			for uri := range refusals {
+				return []Exp{{To: s, Text: errText(wamp.CALL, req, uri)}}, nil
+			}
+		}
+		var rs []string
+		for uri := range refusals {
+			rs = append(rs, errText(wamp.CALL, req, uri))
+		}
+		sort.Strings(rs)
+		return []Exp{{To: s, Alt: rs}}, nil
 	}
+	call.InProg = prog
 	call.Cands = tos
 	m.Calls = append(m.Calls, call)
 	if len(alts) == 1 && !someRefused {
@@ -793,8 +830,15 @@ func (m *MRealm) Call(s int, req wamp.ID, opts wamp.Dict, proc string, args wamp
 		out = append(out, Exp{To: tos[i], Text: alts[i], Alt: []string{"?choice"}})
 	}
 	if someRefused {
-		// one of the equally good registrations would refuse the call: that outcome is as right as the others
-		out = append(out, Exp{To: s, Text: errText(wamp.CALL, req, "wamp.error.option_disallowed.disclose_me"), Alt: []string{"?choice"}})
+		// one of the equally good registrations / callees would refuse the call: that outcome is as right as the others
+		var rs []string
+		for uri := range refusals {
+			rs = append(rs, uri)
+		}
+		sort.Strings(rs)
+		for _, uri := range rs {
+			out = append(out, Exp{To: s, Text: errText(wamp.CALL, req, uri), Alt: []string{"?choice"}})
+		}
 	}
 	// remember the registrations for resolution
 	call.Reg = nil
